@@ -3,7 +3,7 @@
    SpecModel.public_str/base_str, Canon.canon (canonicalize_version with _TrimmedRelease).  Statements only. *)
 From Coq Require Import List Arith NArith Bool Lia.
 Import ListNotations.
-Require Import S1 VParse VComplete VTop VTop2 VDec Py VMeaning VCanon VCanon2 VCanon3 VCmp SpecModel SpecOps Order Canon VWf VKeyEq CanonLaws.
+Require Import S1 VParse VComplete VTop VTop2 VDec Py VMeaning VCanon VCanon2 VCanon3 VCmp SpecModel SpecOps Order Canon VWf VKeyEq CanonLaws VInt.
 Open Scope N_scope.
 
 (* 1. an accepted string is read as the spelling it is: the scanner returns a parse tree whose rendering is the input,
@@ -29,6 +29,33 @@ Theorem C02_letters_normalised sp :
   (match dev (meaning sp) with Some (l, _) => l = w_dev | None => True end).
 Proof. intros W. destruct (meaning_wf sp W) as (_ & A & B & C & _). auto. Qed.
 Print Assumptions C02_letters_normalised.
+
+(* 3b. the numbers are the PEP 440 reading: an absent epoch is 0, every number is the value of its digits (leading zeros irrelevant),
+       an absent pre/post/dev number is the implicit 0, the implicit post form "-N" is post N; flags follow the components *)
+Theorem C02_numbers_and_flags sp :
+  Py.epoch (meaning sp) = match ep sp with Some e => num e | None => 0 end /\
+  Py.release (meaning sp) = map num (rel0 sp :: rels sp) /\
+  (forall l, spre sp = Some l -> Py.pre (meaning sp) = Some (norm_letter (l_word l), match l_num l with [] => 0 | d => num d end)) /\
+  (forall d, spost sp = Some (PostImplicit d) -> Py.post (meaning sp) = Some (w_post, num d)) /\
+  (forall l, spost sp = Some (PostWord l) -> Py.post (meaning sp) = Some (norm_letter (l_word l), match l_num l with [] => 0 | d => num d end)) /\
+  (forall l, sdev sp = Some l -> Py.dev (meaning sp) = Some (norm_letter (l_word l), match l_num l with [] => 0 | d => num d end)) /\
+  (is_prerelease (meaning sp) = true <-> (spre sp <> None \/ sdev sp <> None)) /\
+  (is_postrelease (meaning sp) = true <-> spost sp <> None).
+Proof.
+  unfold meaning, is_prerelease, is_postrelease; cbn [Py.epoch Py.release Py.pre Py.post Py.dev]. repeat split; auto.
+  - intros l ->. reflexivity.
+  - intros d ->. reflexivity.
+  - intros l ->. reflexivity.
+  - intros l ->. reflexivity.
+  - destruct (sdev sp), (spre sp); cbn; intros H; try discriminate; auto; [left|right|left]; discriminate.
+  - destruct (sdev sp), (spre sp); cbn; intros [H|H]; auto; congruence.
+  - destruct (spost sp); cbn; intros H; [discriminate|discriminate].
+  - destruct (spost sp); cbn; intros H; [reflexivity|congruence].
+Qed.
+Print Assumptions C02_numbers_and_flags.
+Theorem C02_leading_zeros_irrelevant n k : num (repeat 48 k ++ dec n) = n.
+Proof. exact (num_leading_zeros n k). Qed.
+Print Assumptions C02_leading_zeros_irrelevant.
 
 (* 4. str(v) is the normal form: it parses back to identical components (hence an equal version and the same string) *)
 Theorem C02_str_roundtrip s v : Version s = Some v -> Version (vstr v) = Some v.
